@@ -111,4 +111,3 @@ func (f *ioFaults) stop() {
 }
 
 func (f *ioFaults) uninstall() { curFaults = nil }
-
